@@ -1269,3 +1269,42 @@ func (db *PGDB) Respond(msgs []pgproto3.FrontendMessage) []pgproto3.BackendMessa
 	}
 	return out
 }
+
+// Clone returns a deep copy of the tables (prepared statements and portals are per session
+// and are not copied).
+func (db *PGDB) Clone() *PGDB {
+	c := NewPGDB()
+	for name, t := range db.Tables {
+		nt := &PGTable{Name: t.Name, Cols: append([]PGColumn{}, t.Cols...)}
+		for _, r := range t.Rows {
+			nr := make([][]byte, len(r))
+			for i, v := range r {
+				if v != nil {
+					nr[i] = append([]byte{}, v...)
+				}
+			}
+			nt.Rows = append(nt.Rows, nr)
+		}
+		c.Tables[name] = nt
+	}
+	return c
+}
+
+// ResetSession forgets prepared statements and portals (a new connection).
+func (db *PGDB) ResetSession() {
+	db.stmts = map[string]*pgPrepared{}
+	db.portals = map[string]*pgPortal{}
+	db.failed = false
+}
+
+// Direct answers a message group as the database would without any proxy in between and
+// returns the messages with their wire bytes.
+func (db *PGDB) Direct(msgs []pgproto3.FrontendMessage) []Msg {
+	var out []Msg
+	for _, a := range db.Respond(msgs) {
+		if c, err := cloneBackend(a); err == nil {
+			out = append(out, c)
+		}
+	}
+	return out
+}
